@@ -19,6 +19,12 @@ CHECKS = {
         note="Trusted: pyvc, z3, specs/dj.py. Assumed: flat byte-array contract of bytes/ByteVec __getitem__/__len__ (ghost sequence); Contract invariant _fastcode = concrete first chunk of _code; with symbolic bytes only soundness (subset of D_J) is proved. Jump checks inside sevm.py use the proved set through `in` only and are not separately under contract.",
         technique="loop-invariant VCs generated from the AST (pyvc), z3; bounded native enumeration as labelled stand-in",
     ),
+    "C18": dict(
+        text="Deductive: Config.value_with_source against the precedence statement by a loop invariant over a parent chain of arbitrary length (maximal source wins, most recent layer among equals, None only if unset everywhere); __getattribute__ reads its first component; resolved_solver_command prefers --solver-command iff its source >= that of --solver (all source pairs symbolically); with_devdoc / with_natspec add exactly one layer with the right source tag or return the input; load_config layer order. Structured-option round trips (Parse*.parse/unparse, strings and floats) are a bounded stand-in reported separately.",
+        ref="DESIGN.md 4/C18",
+        note="Trusted: pyvc, z3. Assumed: ghost-layer model of the parent chain (every layer has a real source 1..5), IntEnum compares as int, lru_cache transparent; callees replaced by contracts in caller proofs (get_solver_command, parse_devdoc, parse_natspec, arg_parser, toml parsing). Per-contract/function scoping of annotations in run_tests is not under contract.",
+        technique="loop-invariant and call-site VCs generated from the AST (pyvc), z3; bounded grammar enumeration as labelled stand-in",
+    ),
 }
 
 NOT_APPLICABLE = {}
